@@ -38,6 +38,15 @@
    lvalue") -- after a front end that streams its listing has already created
    or truncated the output.  Under -E a badgen file is an ordinary source.
 
+   The driver can also abort by itself between steps: get_file_type() calls
+   error() for an input with an unknown extension ("unkext": position i of the
+   command names in<i>.x; `-x none` in front of it changes nothing), after the
+   earlier inputs have been compiled and their temporaries exist.  That is not
+   a step of its own (nothing observable happens but exit(1)): the step list
+   holds a "reject" marker there and whichever action completes the step before
+   it goes to the exit path with `failed` set.  Under -E every input is C
+   (opt_x = FILE_C), so nothing is rejected.
+
    Deviations of the code from the intended discipline are switchable so that
    TLC shows what each breaks (sensitivity controls):
      Pinned = TRUE      main.c before fix-1 / fix-2 of proposed/C14 (D24, D25): (a) run_linker() runs whenever
@@ -45,6 +54,9 @@
                         is enough); (b) in link mode a .s input is assembled
                         to the -o / default .o path and never given to ld
      DoCleanup = FALSE  atexit(cleanup) dropped
+     AtExit = FALSE     cleanup() called explicitly where a child fails and at the
+                        end of main() instead of from an exit handler: error() in
+                        the driver itself leaves the temporaries behind
      CheckWait = FALSE  wait status ignored
      Buffered = FALSE   cc1 opens (truncates) its output after parse() and streams
                         codegen() into it: only a badgen input shows the difference
@@ -56,11 +68,12 @@ EXTENDS Integers, Sequences, FiniteSets, TLC, Json, CSV, IOUtils, SequencesExt
 
 CONSTANTS ND,          \* number of drivers started in the directory (1 or 2)
           MaxIn,       \* inputs per command: 1..MaxIn
-          Pinned, DoCleanup, CheckWait, Buffered, ExclTmp,
+          Pinned, DoCleanup, AtExit, CheckWait, Buffered, ExclTmp,
           Emit         \* TRUE: write one line per terminated single-driver behaviour to IOEnv.OUT
 
 D == 1..ND
 KindSet == {"c", "s", "o"}
+AllKinds == KindSet \cup {"x"}     \* "x": unknown extension, only through dirfault "unkext"
 Modes == {"E", "S", "c", "link"}
 Tools == {"cc1", "as", "ld"}
 
@@ -69,7 +82,7 @@ OPath(d) == "out" \o ToString(d)
 NT == 2 * MaxIn * ND
 TmpName(n) == "t" \o ToString(n)
 TmpPaths == {TmpName(n) : n \in 1..NT}
-UserPaths == {In(i, k) : i \in 1..MaxIn, k \in KindSet} \cup {"a.out"} \cup {OPath(d) : d \in D}
+UserPaths == {In(i, k) : i \in 1..MaxIn, k \in AllKinds} \cup {"a.out"} \cup {OPath(d) : d \in D}
 AllPaths == UserPaths \cup TmpPaths
 
 NoF == [t |-> "none", k |-> 0, how |-> "-"]
@@ -79,7 +92,7 @@ NoStep == [tool |-> "none", out |-> "-", fin |-> "-"]
 
 VARIABLES ins,       \* kinds of the input files in the directory, shared by the drivers
           pre,       \* "old" | "absent": what every possible output path holds initially
-          dirfault,  \* [t: none|missing|bad|badgen, i]   a property of the directory
+          dirfault,  \* [t: none|missing|bad|badgen|unkext, i]   a property of the directory / the command line
           cmd,       \* d -> [mode, o]
           fault,     \* d -> [t: none|cc1|as|ld|unwritable, k, how: exit|signal|noexec]
           prog,      \* d -> the step list of the command (ProgOf)
@@ -99,6 +112,7 @@ View == <<ins, pre, dirfault, cmd, fault, fs, pc, ip, tmps, child, ncall, failed
 P(p) == <<"P", p>>
 T(n) == <<"T", n>>
 TmpOp == [op |-> "tmp", ins |-> <<>>, out |-> P("-"), fin |-> "-"]
+RejectOp == [op |-> "reject", ins |-> <<>>, out |-> P("-"), fin |-> "-"]     \* error("unknown file extension")
 Op(tool, i, ou, fi) == [op |-> tool, ins |-> i, out |-> ou, fin |-> fi]
 
 ExePath(c, d) == IF c.o THEN OPath(d) ELSE "a.out"
@@ -121,7 +135,10 @@ InputOps(c, d, i, k, nt) ==            \* <<steps, temporaries made so far, ld_a
                ELSE IF k = "s" THEN (IF Pinned THEN <<<<Op("as", <<src>>, P(oo), oo)>>, nt, <<>>>>
                                      ELSE <<<<TmpOp, Op("as", <<src>>, T(nt + 1), x)>>, nt + 1, <<T(nt + 1)>>>>)
                ELSE <<<<>>, nt, <<src>>>>
-  IN CASE c.mode = "E" -> ModeE [] c.mode = "S" -> ModeS [] c.mode = "c" -> ModeC [] c.mode = "link" -> ModeL
+  IN IF k = "x" /\ c.mode # "E" THEN <<<<RejectOp>>, nt, <<>>>>
+     ELSE CASE c.mode = "E" -> ModeE [] c.mode = "S" -> ModeS [] c.mode = "c" -> ModeC [] c.mode = "link" -> ModeL
+
+EK(insV, dfV) == [i \in DOMAIN insV |-> IF dfV.t = "unkext" /\ dfV.i = i THEN "x" ELSE insV[i]]    \* kinds as named on the command line
 
 ProgOf(insV, c, d) ==
   LET acc == FoldLeft(LAMBDA a, i : LET r == InputOps(c, d, i, insV[i], a.nt)
@@ -146,7 +163,7 @@ NCalls(pr, tool) == Len(SelectSeq(pr, LAMBDA o : o.op = tool))
 InitTag(insV, preV, dfV, fltV, p) ==
   IF \E i \in 1..Len(insV) : p = In(i, insV[i])
   THEN LET i == CHOOSE j \in 1..Len(insV) : p = In(j, insV[j])
-       IN IF dfV.i = i THEN (IF dfV.t = "missing" THEN "absent" ELSE dfV.t) ELSE "src"
+       IN IF dfV.i = i /\ dfV.t # "unkext" THEN (IF dfV.t = "missing" THEN "absent" ELSE dfV.t) ELSE "src"
   ELSE IF p \in TmpPaths THEN "absent"
   ELSE IF \E d \in D : p = OPath(d) /\ fltV[d].t = "unwritable" THEN "absent"     \* its directory does not exist
   ELSE preV
@@ -154,8 +171,8 @@ InitTag(insV, preV, dfV, fltV, p) ==
 -----------------------------------------------------------------------------
 InitState(insV, preV, dfV, cmdV, fltV) ==
   [ins |-> insV, pre |-> preV, dirfault |-> dfV, cmd |-> cmdV, fault |-> fltV,
-   prog |-> [d \in D |-> ProgOf(insV, cmdV[d], d)],
-   fs |-> [p \in AllPaths |-> InitTag(insV, preV, dfV, fltV, p)]]
+   prog |-> [d \in D |-> ProgOf(EK(insV, dfV), cmdV[d], d)],
+   fs |-> [p \in AllPaths |-> InitTag(EK(insV, dfV), preV, dfV, fltV, p)]]
 
 Load(s) ==   \* primed copy of an initial state (the trace specification's reset)
   /\ ins' = s.ins /\ pre' = s.pre /\ dirfault' = s.dirfault /\ cmd' = s.cmd /\ fault' = s.fault
@@ -194,7 +211,7 @@ Init ==
   /\ cmd \in [D -> [mode : Modes, o : BOOLEAN]]
   /\ ND = 2 => Rank(cmd[1]) <= Rank(cmd[2])       \* the drivers are interchangeable (out1 / out2 renamed)
   /\ dirfault \in {NoDF} \cup {[t |-> x, i |-> i] : x \in {"missing", "bad"}, i \in 1..Len(ins)}
-                      \cup {[t |-> "badgen", i |-> i] : i \in {j \in 1..Len(ins) : ins[j] = "c"}}
+                      \cup {[t |-> x, i |-> i] : x \in {"badgen", "unkext"}, i \in {j \in 1..Len(ins) : ins[j] = "c"}}
   /\ \E f1 \in (IF dirfault = NoDF THEN FaultsOf(ins, cmd[1], 1) ELSE {NoF}) :          \* a single fault
        IF ND = 1 THEN fault = <<f1>>
        ELSE \E f2 \in (IF dirfault = NoDF /\ f1 = NoF THEN FaultsOf(ins, cmd[2], 2) ELSE {NoF}) : fault = <<f1, f2>>
@@ -206,7 +223,12 @@ Init ==
 Res(d, ref) == IF ref[1] = "P" THEN ref[2] ELSE tmps[d][ref[2]]
 (* where main() goes when it returns / calls exit(): the atexit handler, then _exit *)
 AfterMain(tm) == IF DoCleanup /\ tm # <<>> THEN "cleanup" ELSE "exit"
-Advance(d, tm) == IF ip[d] + 1 > Len(prog[d]) THEN AfterMain(tm) ELSE "run"
+(* error() in the driver: exit(1); the temporaries go only if cleanup is an exit handler *)
+AfterErr(tm) == IF AtExit THEN AfterMain(tm) ELSE "exit"
+(* the step after the one being completed is the point where the driver rejects an input *)
+Rej(d, n) == n <= Len(prog[d]) /\ prog[d][n].op = "reject"
+Advance(d, tm) == IF Rej(d, ip[d] + 1) THEN AfterErr(tm)
+                  ELSE IF ip[d] + 1 > Len(prog[d]) THEN AfterMain(tm) ELSE "run"
 Foreign(d, paths) == \E p \in paths \cap TmpPaths : owner[p] \notin {0, d}
 
 ParseArgs(d) ==
@@ -214,8 +236,8 @@ ParseArgs(d) ==
   /\ IF Usage(ins, cmd[d])
      THEN /\ failed' = [failed EXCEPT ![d] = TRUE] /\ sf' = [sf EXCEPT ![d] = TRUE]
           /\ pc' = [pc EXCEPT ![d] = AfterMain(<<>>)]
-     ELSE /\ UNCHANGED <<failed, sf>>
-          /\ pc' = [pc EXCEPT ![d] = IF prog[d] = <<>> THEN AfterMain(<<>>) ELSE "run"]
+     ELSE /\ failed' = [failed EXCEPT ![d] = Rej(d, 1)] /\ sf' = [sf EXCEPT ![d] = Rej(d, 1)]
+          /\ pc' = [pc EXCEPT ![d] = IF prog[d] = <<>> \/ Rej(d, 1) THEN AfterMain(<<>>) ELSE "run"]
   /\ UNCHANGED <<ins, pre, dirfault, cmd, fault, prog, fs, ip, tmps, child, ncall, code, cl, failstep, wrote, clob, owner, interf, log>>
 
 (* mkstemp: a name nobody has used before (random 6-character suffix + O_EXCL); a name is
@@ -235,7 +257,8 @@ CreateTmp(d, n) ==            \* create_tmpfile()
   /\ owner' = [owner EXCEPT ![n] = d]
   /\ ip' = [ip EXCEPT ![d] = @ + 1]
   /\ pc' = [pc EXCEPT ![d] = Advance(d, tmps'[d])]
-  /\ UNCHANGED <<ins, pre, dirfault, cmd, fault, prog, child, ncall, failed, code, cl, sf, failstep, wrote, clob, log>>
+  /\ failed' = [failed EXCEPT ![d] = @ \/ Rej(d, ip[d] + 1)] /\ sf' = [sf EXCEPT ![d] = @ \/ Rej(d, ip[d] + 1)]
+  /\ UNCHANGED <<ins, pre, dirfault, cmd, fault, prog, child, ncall, code, cl, failstep, wrote, clob, log>>
 
 NoExec(d) == LET o == prog[d][ip[d]] IN       \* this call is the one that cannot be started
   fault[d].t = o.op /\ fault[d].how = "noexec" /\ fault[d].k = ncall[d][o.op] + 1
@@ -255,7 +278,7 @@ SpawnFail(d) ==               \* execvp fails: nothing runs, nothing is touched,
      /\ ncall' = [ncall EXCEPT ![d][o.op] = @ + 1]
      /\ sf' = [sf EXCEPT ![d] = TRUE]
      /\ failstep' = IF failstep[d] = NoStep THEN [failstep EXCEPT ![d] = [tool |-> o.op, out |-> out, fin |-> o.fin]] ELSE failstep
-     /\ failed' = [failed EXCEPT ![d] = @ \/ bad]
+     /\ failed' = [failed EXCEPT ![d] = @ \/ bad \/ Rej(d, ip[d] + 1)]
      /\ pc' = [pc EXCEPT ![d] = IF bad THEN AfterMain(tmps[d]) ELSE Advance(d, tmps[d])]
      /\ ip' = [ip EXCEPT ![d] = IF bad THEN @ ELSE @ + 1]
      /\ log' = [log EXCEPT ![d] = Append(@, [tool |-> o.op, ins |-> [j \in DOMAIN o.ins |-> Res(d, o.ins[j])], out |-> out, status |-> "noexec"])]
@@ -298,13 +321,14 @@ ChildRun(d) ==
 
 Wait(d) ==                    \* while (wait(&status) > 0); if (status != 0) exit(1);
   /\ pc[d] = "wait"
-  /\ LET c == child[d]  bad == CheckWait /\ c.status # "ok" IN
-     /\ failed' = [failed EXCEPT ![d] = @ \/ bad]
+  /\ LET c == child[d]  bad == CheckWait /\ c.status # "ok"  rej == ~bad /\ Rej(d, ip[d] + 1) IN
+     /\ failed' = [failed EXCEPT ![d] = @ \/ bad \/ rej]
+     /\ sf' = [sf EXCEPT ![d] = @ \/ rej]
      /\ pc' = [pc EXCEPT ![d] = IF bad THEN AfterMain(tmps[d]) ELSE Advance(d, tmps[d])]
      /\ ip' = [ip EXCEPT ![d] = IF bad THEN @ ELSE @ + 1]
      /\ log' = [log EXCEPT ![d] = Append(@, [tool |-> c.tool, ins |-> c.ins, out |-> c.out, status |-> c.status])]
   /\ child' = [child EXCEPT ![d] = NoChild]
-  /\ UNCHANGED <<ins, pre, dirfault, cmd, fault, prog, fs, tmps, ncall, code, cl, sf, failstep, wrote, clob, owner, interf>>
+  /\ UNCHANGED <<ins, pre, dirfault, cmd, fault, prog, fs, tmps, ncall, code, cl, failstep, wrote, clob, owner, interf>>
 
 Cleanup(d) ==                 \* cleanup(): unlink(tmpfiles.data[i])
   /\ pc[d] = "cleanup"
@@ -359,7 +383,7 @@ P4 == AllDone =>
         /\ \A d \in D : code[d] = 0 =>
              \A p \in Requested(ins, cmd[d], d) : fs[p] \in {TypeOf(cmd[d].mode) \o ToString(e) : e \in D}
         /\ \A p \in UserPaths \ UNION {Requested(ins, cmd[d], d) : d \in D} :
-             fs[p] = InitTag(ins, pre, dirfault, fault, p)
+             fs[p] = InitTag(EK(ins, dirfault), pre, dirfault, fault, p)
 (* P5  no driver (or child of it) reads, writes, replaces or unlinks a temporary the other owns *)
 P5 == ~interf
 TypeOK == /\ \A d \in D : pc[d] \in {"start", "run", "child", "wait", "cleanup", "exit", "done"}
